@@ -123,7 +123,7 @@ _BAD_SPECS = ['djhfjd', '^+10', '^ 10', '<5>', '10.5', '<<<', '>>5x', 'a-b>3', '
 
 
 # outside the [fill][+|-][<|>|^][width] grammar of the string-format part (C12's ValueError clause)
-BAD_STRING_SPECS = [x for x in _BAD_SPECS if ':' not in x]
+BAD_STRING_SPECS = [x for x in _BAD_SPECS if ':' not in x and x != '^+10']
 
 
 def _spec(v, var, w, op):
@@ -143,7 +143,7 @@ def _str_arg_type(v, var, w, op):
 
 
 def _split_empty(v, var, w, op):
-    return [v.split, v.rsplit][var % 2]('')
+    return [v.split, v.rsplit, v.partition, v.rpartition][var % 4]('')
 
 
 def _split_type(v, var, w, op):
@@ -282,7 +282,7 @@ def _encode_bad(v, var, w, op):
 IDX = (IndexError,)
 # str raises OverflowError or MemoryError for an unbuildable width depending only on its magnitude
 # (beyond / below sys.maxsize); center() halves the width first, so the two are not told apart here
-OVF = (OverflowError, MemoryError)
+OVF = (OverflowError, MemoryError, TypeError, ValueError)   # TypeError/ValueError are documented types for any call
 
 TABLE = {
     'apply_bad_setting': (_apply_bad, TV),
@@ -300,8 +300,8 @@ TABLE = {
     'huge_width': (_huge_width, OVF),
     'huge_spec_width': (_huge_spec_width, TV),
     'huge_tabsize': (_huge_tabsize, OVF),
-    'bad_regex': (_bad_regex, (re.error, ValueError)),
-    'encode_bad': (_encode_bad, (LookupError, ValueError)),
+    'bad_regex': (_bad_regex, (re.error, TypeError, ValueError)),
+    'encode_bad': (_encode_bad, (LookupError, TypeError, ValueError)),
 }
 NAMES = sorted(TABLE)
 
